@@ -105,70 +105,7 @@ func checkC02(p *core.Program, r *core.Report) {
 	}
 	lift := func(e core.EdgeFilter) core.EdgeFilter { return core.LiftEdge(e, hubLocal, 2) }
 	// ---------- inbound
-	var reqParam ssa.Value
-	for _, pa := range serve.Params {
-		if core.TypeIs(pa.Type(), "net/http", "Request") {
-			reqParam = pa
-		}
-	}
-	inSki := core.ExpandSites(serve, hubLocal, 2, isSkiCall)
-	if len(inSki) != 1 {
-		r.Fail(R1, "inbound SKI extraction", p.Pos(serve.Pos()), fmt.Sprintf("expected exactly one SkiFromCertificate call in the inbound handler, found %d", len(inSki)))
-	} else {
-		scSite := inSki[0]
-		sc := scSite.In.(*ssa.Call)
-		undo := scSite.Bind()
-		ok, base := firstPeerCert(sc.Call.Args[0])
-		fromReq := false
-		if ok {
-			// base = *r.TLS
-			if f, b2 := core.LoadedField(base); f != nil && f.Name() == "TLS" && core.Canon(b2) == reqParam {
-				fromReq = true
-			}
-		}
-		undo()
-		key := "inbound SKI taken from r.TLS.PeerCertificates[0]"
-		if ok && fromReq {
-			r.OK(R1, key, p.Pos(sc.Pos()), "the certificate whose key the peer proved possession of")
-		} else {
-			r.Fail(R1, key, p.Pos(sc.Pos()), "the inbound SKI is not extracted from the first peer certificate of this request's TLS state: only for that certificate possession of the key was proven; any other entry of the list is attacker-chosen data")
-		}
-		for _, s := range core.ExpandSites(serve, hubLocal, 2, isConstruct) {
-			c := core.Common(s.In)
-			arg := c.Args[len(c.Args)-1]
-			name := "NewWebsocketConnection"
-			if c.StaticCallee() == a.nch {
-				arg, name = c.Args[4], "NewConnectionHandler"
-			}
-			key := "inbound " + name + " SKI derives from the extracted SKI"
-			undo := s.Bind()
-			der := derivesFromThroughHub(p, arg, sc, 12)
-			undo()
-			if der {
-				r.OK(R1, key, p.Pos(s.In.Pos()), "identity = SkiFromCertificate(peer cert)")
-			} else {
-				r.Fail(R1, key, p.Pos(s.In.Pos()), "the connection is created under a SKI that does not derive from the presented certificate")
-			}
-			// R2 inbound guards
-			chk := []struct {
-				name string
-				e    core.EdgeFilter
-				msg  string
-			}{
-				{"ski-extracted", errNilEdge(sc, true), "without a successfully extracted SKI"},
-				{"subprotocol", subprotocolEdge(p), "without the 'ship' websocket sub-protocol"},
-				{"client-cert-present", peerCertsPresentEdge(), "without a client certificate"},
-			}
-			for _, k := range chk {
-				key := "inbound " + name + " guarded " + k.name
-				if core.GuardedCtx(s, lift(k.e)) {
-					r.OK(R2, key, p.Pos(s.In.Pos()), "construction only on the pass edge")
-				} else {
-					r.Fail(R2, key, p.Pos(s.In.Pos()), "an inbound SHIP connection can be constructed "+k.msg)
-				}
-			}
-		}
-	}
+	checkInboundIdentity(p, r, R1, R2)
 	checkRefusalsClose(p, r, R2, serve, "inbound")
 	checkSubprotocolConfig(p, r, R2, serve, a.dialFns)
 
@@ -947,4 +884,95 @@ func checkSubprotocolConfig(p *core.Program, r *core.Report, rule string, serve 
 			}
 		}
 	})
+}
+
+// checkInboundIdentity: (R1) the inbound SKI is extracted from r.TLS.PeerCertificates[0] and both constructions
+// are made under it; (R2, skipped when "") the constructions are reachable only over the pass edges of the
+// SKI-extraction, sub-protocol and client-certificate checks. Shared by C02 and C01.R7.
+func checkInboundIdentity(p *core.Program, r *core.Report, R1, R2 string) {
+	skiFn := p.Func("cert", "SkiFromCertificate")
+	serve := p.Method("hub", "Hub", "ServeHTTP")
+	a := findHub(p, r, R1)
+	if skiFn == nil || serve == nil || a == nil {
+		r.Unresolved(R1, "cert.SkiFromCertificate / hub.Hub.ServeHTTP")
+		return
+	}
+	nws := p.Func("ws", "NewWebsocketConnection")
+	isConstruct := func(in ssa.Instruction) bool {
+		c := core.Common(in)
+		return c != nil && (c.StaticCallee() == a.nch || c.StaticCallee() == nws)
+	}
+	hubLocal := func(f *ssa.Function) bool { return p.PkgShort(f) == "hub" && f.Blocks != nil }
+	isSkiCall := func(in ssa.Instruction) bool {
+		c, ok := in.(*ssa.Call)
+		return ok && c.Call.StaticCallee() == skiFn
+	}
+	lift := func(e core.EdgeFilter) core.EdgeFilter { return core.LiftEdge(e, hubLocal, 2) }
+	var reqParam ssa.Value
+	for _, pa := range serve.Params {
+		if core.TypeIs(pa.Type(), "net/http", "Request") {
+			reqParam = pa
+		}
+	}
+	inSki := core.ExpandSites(serve, hubLocal, 2, isSkiCall)
+	if len(inSki) != 1 {
+		r.Fail(R1, "inbound SKI extraction", p.Pos(serve.Pos()), fmt.Sprintf("expected exactly one SkiFromCertificate call in the inbound handler, found %d", len(inSki)))
+	} else {
+		scSite := inSki[0]
+		sc := scSite.In.(*ssa.Call)
+		undo := scSite.Bind()
+		ok, base := firstPeerCert(sc.Call.Args[0])
+		fromReq := false
+		if ok {
+			// base = *r.TLS
+			if f, b2 := core.LoadedField(base); f != nil && f.Name() == "TLS" && core.Canon(b2) == reqParam {
+				fromReq = true
+			}
+		}
+		undo()
+		key := "inbound SKI taken from r.TLS.PeerCertificates[0]"
+		if ok && fromReq {
+			r.OK(R1, key, p.Pos(sc.Pos()), "the certificate whose key the peer proved possession of")
+		} else {
+			r.Fail(R1, key, p.Pos(sc.Pos()), "the inbound SKI is not extracted from the first peer certificate of this request's TLS state: only for that certificate possession of the key was proven; any other entry of the list is attacker-chosen data")
+		}
+		for _, s := range core.ExpandSites(serve, hubLocal, 2, isConstruct) {
+			c := core.Common(s.In)
+			arg := c.Args[len(c.Args)-1]
+			name := "NewWebsocketConnection"
+			if c.StaticCallee() == a.nch {
+				arg, name = c.Args[4], "NewConnectionHandler"
+			}
+			key := "inbound " + name + " SKI derives from the extracted SKI"
+			undo := s.Bind()
+			der := derivesFromThroughHub(p, arg, sc, 12)
+			undo()
+			if der {
+				r.OK(R1, key, p.Pos(s.In.Pos()), "identity = SkiFromCertificate(peer cert)")
+			} else {
+				r.Fail(R1, key, p.Pos(s.In.Pos()), "the connection is created under a SKI that does not derive from the presented certificate")
+			}
+			// R2 inbound guards
+			chk := []struct {
+				name string
+				e    core.EdgeFilter
+				msg  string
+			}{
+				{"ski-extracted", errNilEdge(sc, true), "without a successfully extracted SKI"},
+				{"subprotocol", subprotocolEdge(p), "without the 'ship' websocket sub-protocol"},
+				{"client-cert-present", peerCertsPresentEdge(), "without a client certificate"},
+			}
+			for _, k := range chk {
+				if R2 == "" {
+					break
+				}
+				key := "inbound " + name + " guarded " + k.name
+				if core.GuardedCtx(s, lift(k.e)) {
+					r.OK(R2, key, p.Pos(s.In.Pos()), "construction only on the pass edge")
+				} else {
+					r.Fail(R2, key, p.Pos(s.In.Pos()), "an inbound SHIP connection can be constructed "+k.msg)
+				}
+			}
+		}
+	}
 }
